@@ -14,6 +14,11 @@ Property on the real code (no model involved):
     gives a breadth-first visit of the textbook multitape configuration tree (dict tapes, blank
     elsewhere; compared by head-relative view, block d = permutation of the depth-d multiset):
     the oracle of C03 applied to the decoded sequence.
+  * family special_char_alphabets (harness/c17_special.py): the same three judgements on machines whose
+    tape symbols are characters special to string / regex processing (line breaks, whitespace, regex
+    metacharacters, quotes / format characters, control and non-ASCII code points; never the marks), plus
+    two more oracles: the verdict of the plain machine a case was relabelled from, and closed-form
+    verdicts of two hand-written machines (line counter, copier).
 Off the domain of the theorems (family `mark_alphabets`, open finding KEY_MARK): machines whose tape
 alphabet contains '^' / '_' and inputs containing them.  validate() does not reserve the marks and
 inputs are never checked, so these cases are inside the property's literal quantifier; the
@@ -28,6 +33,7 @@ import json
 
 from automata.tm.mntm import MNTM
 
+from harness import c17_special as S
 from harness import enc_tm as E
 from harness.common import Ctx, call, toks
 from harness.ops.C03 import oracle_mntm_check
@@ -41,7 +47,13 @@ RULE = ("cases = (valid MNTM with 1–3 tapes, deterministic or not, input, "
         "strs, tuples, frozensets in one machine; nondeterministic with dead ends, so rejected inputs leave several "
         "branches stuck in differently-typed states), and machines built under allow_mutable_automata=True from plain "
         "dict/list/set containers (transition results stay lists; option on or off again during the runs; judged on a "
-        "frozen twin = the definition as built) — all of these with tape alphabets and inputs without '^' and '_' — "
+        "frozen twin = the definition as built), the family special_char_alphabets (tape symbols / blanks / inputs that "
+        "are special to string and regex processing — 53 characters: the ten str.splitlines separators incl. \\n \\r "
+        "U+2028, other whitespace, regex metacharacters, quotes % # and other format characters, NUL / DEL / ESC / BOM / "
+        "combining / astral code points — each of them in every role: corpus, tiny-exhaustive and random machines "
+        "relabelled through a bijection of their tape alphabet, expected verdict = the plain machine's; a two-tape "
+        "line counter and a 2-/3-tape copier with closed-form verdicts whose heads rest on every input symbol) "
+        "— all of these with tape alphabets and inputs without '^' and '_' — "
         "and the family mark_alphabets (4 fixed probes + random machines over 9 tape alphabets containing '^' / "
         "'_' and/or inputs containing them: the open finding C17:mark-symbol-in-alphabet-or-input); a case is "
         "non-trivial when the simulation yields ≥3 configurations; distinct = distinct (definition, input, n)")
@@ -53,7 +65,9 @@ ASSUMPTIONS = [
 ]
 EXPLANATION = ("Theorems C17_* state decode∘encode = heads, splice(encode) = encode(apply moves) and verdict "
                "agreement for the model; this run ties the model to the code (extended tape strings exactly) "
-               "and evaluates verdict agreement / exception discipline / breadth-first decoding on the real code.")
+               "and evaluates verdict agreement / exception discipline / breadth-first decoding on the real code, "
+               "also over tape alphabets of characters special to string / regex processing (relabelled machines: "
+               "expected verdict = the plain machine's; hand-written machines: closed form).")
 
 DRV = "drv_tm"
 HD, SEP = "^", "_"
@@ -189,10 +203,11 @@ def mixed_names_family(ctx: Ctx, count: int):
 
 
 def check_sim(ctx: Ctx, m: MNTM, w: str, n: int, origin: str, native_budget: int = 0, ref: MNTM = None,
-              how: dict = None):
+              how: dict = None, under: set = None):
     """`ref` / `how`: `m` is a LIVE machine built under the mutable-automata option (see `build_live`); the
     calls are made on `m`, the oracle, the model and the replay use the frozen twin `ref` (the definition as
-    built)."""
+    built).  `under`: a set that collects the symbols a virtual head rested on in some yielded extended tape
+    (the cell left of each '^'; only evidence about the generators, no judgement)."""
     if E.skip(ctx):
         return None
     drv = ctx.driver(DRV)
@@ -208,6 +223,10 @@ def check_sim(ctx: Ctx, m: MNTM, w: str, n: int, origin: str, native_budget: int
             break
         cfgs.append(next(iter(y)))
     impl = ([(st(c.state), c.tape.current_position, tuple(ord(x) for x in c.tape.tape)) for c in cfgs], end)
+    if under is not None:
+        for c in cfgs:
+            t = c.tape.tape
+            under.update(t[i - 1] for i in range(1, len(t)) if t[i] == HD)
     mod = E.parse_run(drv.ask(toks("ASNTM_STEPS", enc, E.enc_word(w), n, 0)),
                       lambda t: (t.int(), t.int(), tuple(t.ints())))
     ctx.case(("S", enc, w, n) if len(ys) >= 3 else None)
@@ -428,6 +447,201 @@ def mark_family(ctx: Ctx, count: int):
             check_mark(ctx, m, w, rng.choice([4, 8, 15]), "mark_alphabets")
 
 
+# ------------------------------------------------------------------ special characters as tape symbols
+def _native_verdict(m: MNTM, w: str, n: int) -> str:
+    return E.verdict_of(E.observe(m.read_input_stepwise(w), n)[1])
+
+
+def _note_special(ctx: Ctx, m: MNTM, w: str, under: set):
+    """Distribution of the family: which special characters a head rested on (by class), and in which role
+    the machine uses them."""
+    for c in under:
+        if c in S.CLASS_OF:
+            ctx.stat("special_head_rested_on_" + S.CLASS_OF[c])
+    seen = ctx.__dict__.setdefault("c17_special_under", set())
+    seen.update(c for c in under if c in S.CLASS_OF)
+    if m.blank_symbol in S.CLASS_OF:
+        ctx.stat("special_blank_is_" + S.CLASS_OF[m.blank_symbol])
+    if any(c in S.CLASS_OF for c in w):
+        ctx.stat("special_char_in_input")
+
+
+def check_relabel(ctx: Ctx, m0: MNTM, f: dict, w0: str, n_sim: int, n: int, origin: str):
+    """`m0` on `w0` is a case of one of the other families (plain alphabet); `f` a bijection of its tape
+    alphabet (extended to the symbols of `w0` outside it) onto special characters.  The relabelled machine
+    on the relabelled input is judged (a) like every other case — check_sim: its yields decode to a
+    breadth-first visit of the textbook tree over the relabelled definition, model correspondence;
+    check_pair: native verdict vs. simulation, nothing but RejectionException — and (b) against the run of
+    the plain machine: a bijective renaming of tape symbols (the marks untouched) cannot change a verdict,
+    so the native verdict of `m0` on `w0` is the expected verdict of both runs of the relabelled machine."""
+    if E.skip(ctx):
+        return
+    m = S.relabel(m0, f)
+    w = S.relabel_word(w0, f)
+    under = set()
+    check_sim(ctx, m, w, n_sim, origin, under=under)
+    check_pair(ctx, m, w, n, origin + "_pair")
+    _note_special(ctx, m, w, under)
+    v0 = _native_verdict(m0, w0, n)
+    if v0 not in ("accept", "reject"):
+        ctx.stat("special_plain_run_undecided")
+        return
+    ctx.stat("special_plain_run_" + v0)
+    ctx.case(None)
+    v1 = _native_verdict(m, w, n)
+    vs = E.verdict_of(E.observe(m.read_input_as_ntm(w), 5 * n + 10)[1])
+    wrong = []
+    if v1 != v0:
+        wrong.append(f"native verdict {v1}")
+    if vs != v0:
+        wrong.append(f"simulation {vs}")
+    if wrong:
+        ctx.prop_fail(f"MNTM on {w!r}: " + ", ".join(wrong) + f" — but the same machine with its tape symbols renamed "
+                      f"({ {b: a for a, b in f.items() if b in set(w) | set(m.tape_symbols)} }) has native verdict {v0} on {w0!r}",
+                      dict(kind="RELABEL", machine=repr(m0), mapping=dict(f), word=w0, n_sim=n_sim, n=n), None)
+
+
+def check_closed(ctx: Ctx, m: MNTM, w: str, expect: bool, what: str, origin: str):
+    """A hand-written machine whose verdict has a closed form (`expect`, computed from the input alone): the
+    native run, the simulation and accepts_input must all give it; plus check_sim for the yields."""
+    if E.skip(ctx):
+        return
+    n = 2 * len(w) + 6                       # both machines halt within 2|w|+3 steps
+    under = set()
+    check_sim(ctx, m, w, n, origin, under=under)
+    _note_special(ctx, m, w, under)
+    ctx.case(None)
+    ctx.stat(origin + "_closed_form_" + ("accept" if expect else "reject"))
+    want = "accept" if expect else "reject"
+    vn = _native_verdict(m, w, n)
+    vs = E.verdict_of(E.observe(m.read_input_as_ntm(w), 5 * n + 10)[1])
+    wrong = []
+    if vs != want:
+        wrong.append(f"simulation {vs if vs != 'fuel' else 'undecided'}")
+    if vn != want:
+        wrong.append(f"native verdict {vn if vn != 'fuel' else 'undecided'}")
+    if not wrong:
+        r = E.bounded_call(lambda: m.accepts_input(w))
+        if r != ("ok", expect):
+            wrong.append(f"accepts_input = {r}")
+    if wrong:
+        ctx.prop_fail(f"MNTM ({what}) on {w!r}: " + ", ".join(wrong) + f"; closed form: {want}",
+                      dict(kind="CLOSED", machine=repr(m), word=w, expect=expect, what=what), None)
+
+
+def _tiny_sources():
+    """Machines of the bounded-exhaustive parts, as (machine, inputs, n_sim, n_pair) — every 7th / 11th."""
+    kw2 = dict(states={"q0", "q1", "qf"}, input_symbols={"0"}, tape_symbols={"0", "#"}, initial_state="q0",
+               blank_symbol="#", final_states={"qf"})
+    kwt = dict(states={"q0", "qf"}, input_symbols={"0"}, tape_symbols={"0", "#"}, initial_state="q0",
+               blank_symbol="#", final_states={"qf"}, n_tapes=2)
+    out = []
+    for i, table in enumerate(E.tiny_dtm_tables("0#", 2)):
+        if i % 7 == 3:
+            out.append((E.mntm1_from(kw2, table), ("0", "00"), 8, 10))
+    for i, table in enumerate(E.tiny_nondet_tables("0#")):
+        if i % 11 == 5:
+            out.append((E.mntm1_from_lists(kw2, table, swap=bool(i & 1)), ("0", "00"), 10, 12))
+    for i, table in enumerate(tiny_two_tape_tables(1)):
+        if i % 7 == 2:
+            out.append((MNTM(transitions=table, **kwt), ("0", "00"), 6, 8))
+    return out
+
+
+COUNTER_WORDS = ("n", "an", "na", "ana", "aa", "a", "", "nn", "a#n", "n#a", "a%n", "aan")   # a, n, # = roles; % foreign
+COPIER_WORDS = ("12", "21", "1", "2", "", "221", "1#2", "1%", "212", "11")
+
+
+def special_family(ctx: Ctx, count: int):
+    """Family `special_char_alphabets`: tape alphabets and inputs made of characters that are special to
+    string / regex processing (harness/c17_special.py: 53 characters in 5 classes — line breaks, other
+    whitespace, regex metacharacters, quotes / format characters, control and non-ASCII code points; never
+    the marks).  A tape symbol is any single character, so all of these are inside the property's
+    quantifier and inside the domain of the theorems (`Clean`); the other families only use
+    0 1 a b x y é λ # . and the blank ' '.
+      1. every special character, in every role (position in the sorted tape alphabet, so: input symbol,
+         written-only symbol, blank), on a rotating source of machines of the other families — the corpus
+         machines (F9 / F11 triggers, the docstring example), every 7th / 11th tiny exhaustive machine, shaped
+         random machines — relabelled through a bijection of the tape alphabet (check_relabel);
+      2. two hand-written machines with closed-form verdicts, every special character in every role: a
+         two-tape line counter (text symbol, line break, tally, blank) and a 2-/3-tape copier that walks all
+         heads back over the copied text, so every head rests on every input symbol (check_closed);
+      3. `count` shaped random machines (E.rand_mntm, 1–3 tapes, 15 % mixed-type state names) relabelled at
+         random."""
+    rng = ctx.rng
+    corpus_src = [(m, words, ns, n) for (_o, m, words, ns, n) in corpus_machines()]
+    tiny_src = _tiny_sources()
+    k = 0
+    for ci, c in enumerate(S.ALL):
+        for role in range(3):
+            k += 1
+            pick = k % 3
+            if pick == 0:
+                m0, words, n_sim, n = corpus_src[(k // 3) % len(corpus_src)]
+                origin = "special_relabelled_corpus"
+            elif pick == 1:
+                m0, words, n_sim, n = tiny_src[(k // 3) % len(tiny_src)]
+                origin = "special_relabelled_tiny"
+            else:
+                m0 = E.rand_mntm(rng, n_tapes=rng.choice([1, 2, 2, 3]))
+                words, n_sim, n = (E.rand_input(rng, m0), E.rand_input(rng, m0)), rng.choice([8, 16]), rng.choice([6, 15])
+                origin = "special_relabelled_random"
+            syms = sorted(m0.tape_symbols - {m0.blank_symbol}) + [m0.blank_symbol]
+            # role 0: the first non-blank symbol (always an input symbol here), role 2: the blank, role 1: the
+            # last non-blank symbol (a written-only symbol when the machine has one)
+            idx = {0: 0, 1: max(0, len(syms) - 2), 2: len(syms) - 1}[role]
+            f = S.pick_bijection(rng, syms, c, idx)
+            ctx.stat("special_role_" + ("blank" if idx == len(syms) - 1 else "nonblank"))
+            for w0 in words[:2] if origin != "special_relabelled_corpus" else words:
+                check_relabel(ctx, m0, S.extend_for_word(rng, f, w0), w0, n_sim, n, origin)
+    # 2. hand-written machines
+    for ci, c in enumerate(S.ALL):
+        for role in range(4):
+            others = rng.sample([x for x in S.ALL if x != c], 4)
+            plain = rng.random() < 0.5          # the other roles: ordinary characters, or special ones too
+            r = list("a\n1#") if plain else others[:4]
+            if plain and c in r:
+                r = list("a\n1#")
+            r[role] = c
+            if len(set(r)) < 4:
+                r = [c if i == role else others[i] for i in range(4)]
+            a, nl, one, blank = r
+            m = S.line_counter(a, nl, one, blank)
+            foreign = next(x for x in "%@$&" if x not in r)
+            for j in range(3):
+                t = COUNTER_WORDS[(ci * 4 + role + 5 * j) % len(COUNTER_WORDS)] if j else ("na", "an", "n", "ana")[role]
+                w = "".join({"a": a, "n": nl, "#": blank, "%": foreign}[x] for x in t)
+                check_closed(ctx, m, w, S.line_counter_accepts(w, a, nl, one, blank),
+                             f"line counter: text {a!r}, line break {nl!r}, tally {one!r}, blank {blank!r}",
+                             "special_line_counter")
+        for role in range(3):
+            others = rng.sample([x for x in S.ALL if x != c], 3)
+            r = [c if i == role else others[i] for i in range(3)]
+            s1, s2, blank = r
+            nt = 2 + (ci + role) % 2
+            m = S.copier(s1, s2, blank, nt)
+            foreign = next(x for x in "%@$&" if x not in r)
+            for j in range(2):
+                t = COPIER_WORDS[(ci * 3 + role + 3 * j) % len(COPIER_WORDS)] if j else ("12", "21", "1")[role]
+                w = "".join({"1": s1, "2": s2, "#": blank, "%": foreign}[x] for x in t)
+                check_closed(ctx, m, w, S.copier_accepts(w, s1, s2, blank),
+                             f"{nt}-tape copier over {s1!r}, {s2!r}, blank {blank!r}", "special_copier")
+    # 3. random machines, random relabelling
+    for _ in range(count):
+        m0 = E.rand_mntm(rng, n_tapes=rng.choice([1, 2, 2, 3, 3]), names_fn=E.rand_mixed_names if rng.random() < 0.15 else None)
+        syms = sorted(m0.tape_symbols - {m0.blank_symbol}) + [m0.blank_symbol]
+        f = S.pick_bijection(rng, syms, rng.choice(S.ALL), rng.randrange(len(syms)))
+        for _ in range(2):
+            w0 = E.rand_input(rng, m0)
+            check_relabel(ctx, m0, S.extend_for_word(rng, f, w0), w0, rng.choice([4, 8, 16, 30]), rng.choice([6, 15, 40]),
+                          "special_random")
+    seen = getattr(ctx, "c17_special_under", set())
+    ctx.stat("special_distinct_characters_a_head_rested_on", len(seen))
+    missing = [S.name_of(c) for c in S.ALL if c not in seen]
+    if missing:
+        ctx.note("special_char_alphabets: no head rested on " + " ".join(missing))
+
+
 def check_read_ext(ctx: Ctx, ext: str, origin: str):
     r = call(lambda: MNTM._read_extended_tape(ext, HD, SEP))
     impl = ("ok " + toks(len(r[1]), [ord(c) for c in r[1]])).strip() if r[0] == "ok" else "err " + r[1]
@@ -440,14 +654,12 @@ def check_read_ext(ctx: Ctx, ext: str, origin: str):
 
 
 # ------------------------------------------------------------------ corpus / generators
-def corpus(ctx: Ctx):
+def corpus_machines():
+    """(origin, machine, inputs, next() calls of the simulation, native budget of the verdict pair)."""
     # F9 (fixed 8f7542c): left move from the leftmost cell of a virtual tape
     f9 = MNTM(states={"q0", "q1", "q2"}, input_symbols={"1"}, tape_symbols={"1", "#"}, n_tapes=1,
               transitions={"q0": {("1",): [("q1", (("1", "L"),))]}, "q1": {("#",): [("q2", (("#", "R"),))]}},
               initial_state="q0", blank_symbol="#", final_states={"q2"})
-    for w in ("1", "11", ""):
-        check_sim(ctx, f9, w, 8, "corpus_F9")
-        check_pair(ctx, f9, w, 12, "corpus_F9")
     # the same on the second and third tape, and at both ends at once
     f9b = MNTM(states={"q0", "q1", "q2"}, input_symbols={"1"}, tape_symbols={"1", "#"}, n_tapes=3,
                transitions={"q0": {("1", "#", "#"): [("q1", (("1", "R"), ("1", "L"), ("#", "L")))],
@@ -456,25 +668,25 @@ def corpus(ctx: Ctx):
                                                      ("q0", (("1", "L"), ("#", "R"), ("#", "L")))],
                                    ("1", "#", "#"): [("q1", (("#", "L"), ("1", "L"), ("1", "R")))]}},
                initial_state="q0", blank_symbol="#", final_states={"q2"})
-    for w in ("", "1", "11", "111"):
-        check_sim(ctx, f9b, w, 14, "corpus_F9")
-        check_pair(ctx, f9b, w, 25, "corpus_F9")
     # F11 (fixed 5a3675d): empty transition list
     f11 = MNTM(states={"q0", "q1"}, input_symbols={"1"}, tape_symbols={"1", "#"}, n_tapes=1,
                transitions={"q0": {("1",): [], ("#",): [("q1", (("#", "N"),))]}},
                initial_state="q0", blank_symbol="#", final_states={"q1"})
-    for w in ("", "1"):
-        check_sim(ctx, f11, w, 6, "corpus_F11")
-        check_pair(ctx, f11, w, 8, "corpus_F11")
     # the library's own example (tests/test_mntm.py shape): copy 1s to the second tape
     ex = MNTM(states={"q0", "q1"}, input_symbols={"0", "1"}, tape_symbols={"0", "1", "#"}, n_tapes=2,
               transitions={"q0": {("1", "#"): [("q0", (("1", "R"), ("1", "R")))],
                                   ("0", "#"): [("q0", (("0", "R"), ("#", "N")))],
                                   ("#", "#"): [("q1", (("#", "N"), ("#", "N")))]}},
               initial_state="q0", blank_symbol="#", final_states={"q1"})
-    for w in ("", "1", "0110", "111"):
-        check_sim(ctx, ex, w, 10, "corpus_example")
-        check_pair(ctx, ex, w, 12, "corpus_example")
+    return [("corpus_F9", f9, ("1", "11", ""), 8, 12), ("corpus_F9", f9b, ("", "1", "11", "111"), 14, 25),
+            ("corpus_F11", f11, ("", "1"), 6, 8), ("corpus_example", ex, ("", "1", "0110", "111"), 10, 12)]
+
+
+def corpus(ctx: Ctx):
+    for origin, m, words, n_sim, n_pair in corpus_machines():
+        for w in words:
+            check_sim(ctx, m, w, n_sim, origin)
+            check_pair(ctx, m, w, n_pair, origin)
     for ext in ("", "^", "_", "0^_", "0^", "0_", "0^^_", "0^1^_", "^0_", "0^_#^_", "0^__", "0^_#_", "01^0_#^_1#^_",
                 "0^_^_", "a^b_c^", "_0^"):
         check_read_ext(ctx, ext, "corpus_read_ext")
@@ -555,7 +767,10 @@ def run(ctx: Ctx):
     # 2a. mixed-type state names; machines built under the mutable-automata option
     mixed_names_family(ctx, ctx.budget(500, 6000))
     mutable_option_family(ctx, ctx.budget(500, 6000))
-    # 2b. off the domain of the theorems: marks in the tape alphabet / in the input (open finding)
+    # 2b. tape symbols special to string / regex processing (inside the domain of the theorems; before the
+    # off-domain family below, whose unpredicted hangs on a changed tree may use up the watchdog's patience)
+    special_family(ctx, ctx.budget(200, 4000))
+    # 2c. off the domain of the theorems: marks in the tape alphabet / in the input (open finding)
     mark_family(ctx, ctx.budget(600, 6000))
     # 3. _read_extended_tape on random strings over {0,1,#,^,_}
     for _ in range(ctx.budget(400, 8000)):
@@ -588,6 +803,10 @@ def replay(ctx: Ctx, path: str) -> int:
                 check_pair(ctx, live, rp["word"], rp["n"], "replay", ref=m, how=how)
         elif kind == "MARK":
             check_mark(ctx, m, rp["word"], rp["n"], "replay")
+        elif kind == "RELABEL":
+            check_relabel(ctx, m, rp["mapping"], rp["word"], rp["n_sim"], rp["n"], "replay")
+        elif kind == "CLOSED":
+            check_closed(ctx, m, rp["word"], rp["expect"], rp["what"], "replay")
         elif kind == "SIM":
             check_sim(ctx, m, rp["word"], rp["n"], "replay")
         else:
